@@ -1158,6 +1158,17 @@ class SyncInterpreter(BaseInterpreter[TContext, TEvent]):
             if explicit_id
             else f"{self.id}:{key}:{uuid.uuid4()}"
         )
+        # ♻️ An explicit id that is still in use: stop the previous actor first.
+        #    Overwriting the `_actors` entry orphaned it - still running,
+        #    unreachable by id and never stopped by this interpreter's `stop()`.
+        previous = self._actors.pop(actor_id, None)
+        if previous is not None:
+            logger.warning(
+                "⚠️ Actor id '%s' is already in use; stopping the previous "
+                "actor before spawning its replacement.",
+                actor_id,
+            )
+            previous.stop()
         child = SyncInterpreter(actor_machine)
         child.parent = self
         child.id = actor_id
@@ -1197,7 +1208,10 @@ class SyncInterpreter(BaseInterpreter[TContext, TEvent]):
                 if on_complete is not None:
                     self._queue_actor_done(child, on_complete)
                 child.stop()
-                self._actors.pop(actor_id, None)
+                # 🧹 Pop OUR entry only: the id may meanwhile name a newer
+                #    actor spawned under the same explicit id.
+                if self._actors.get(actor_id) is child:
+                    self._actors.pop(actor_id, None)
                 logger.info("🧹 Actor thread for '%s' cleaned up.", actor_id)
 
         # 🚀 Start the thread
